@@ -19,6 +19,52 @@
 #include <unistd.h>
 using namespace vh;
 
+#ifdef GSTLEARN_VERIF
+// verification hooks of src/Core/model_auto.cpp (parameter bookkeeping of the automatic fitting)
+GSTLEARN_EXPORT int gstlearn_verif_parid_encode(int imod, int icov, int icons, int ivar, int jvar);
+GSTLEARN_EXPORT void gstlearn_verif_parid_decode(int parid, int out[5]);
+GSTLEARN_EXPORT void gstlearn_verif_affect(double def_val, double lower_val, double upper_val, double* param, double* lower, double* upper);
+GSTLEARN_EXPORT int gstlearn_verif_compress_parid(VectorInt& parid, VectorDouble& param, VectorDouble& lower, VectorDouble& upper);
+
+static std::string vecOV(const VectorDouble& v) { if (v.empty()) return "-"; std::string o; for (size_t i = 0; i < v.size(); i++) o += (i ? "," : "") + (FFFF(v[i]) ? std::string("NA") : dy(v[i])); return o; }
+static std::string ov(double v) { return FFFF(v) ? std::string("NA") : dy(v); }
+
+static void bookkeeping(Rng& rng, Stats& st, long n)
+{
+  for (long k = 0; k < n; k++)
+  {
+    // ---- packing of the designators (digits 0-49; constraint kinds are the ten EConsElem values)
+    { int f[5]; for (int i = 0; i < 5; i++) f[i] = rng.coin(0.2) ? (rng.coin() ? 0 : 49) : (int)rng.range(0, 49); f[2] = (int)rng.range(0, 9);
+      int pid = gstlearn_verif_parid_encode(f[0], f[1], f[2], f[3], f[4]); int out[5]; gstlearn_verif_parid_decode(pid, out);
+      printf("a enc %d %d %d %d %d => %d %d,%d,%d,%d,%d\n", f[0], f[1], f[2], f[3], f[4], pid, out[0], out[1], out[2], out[3], out[4]); st.hit("parid_roundtrip"); }
+    // ---- merge of one constraint into a slot (every combination of defined / undefined entries; small dyadic values incl. negative)
+    { auto pick = [&]() -> double { return rng.coin(0.35) ? TEST : 0.5 * (double)rng.range(-12, 12); };
+      double d = pick(), l = pick(), u = pick(), p0 = pick(), l0 = pick(), u0 = pick(); double p = p0, lo = l0, up = u0;
+      gstlearn_verif_affect(d, l, u, &p, &lo, &up);
+      printf("a aff %s %s %s %s %s %s => %s %s %s\n", ov(d).c_str(), ov(l).c_str(), ov(u).c_str(), ov(p0).c_str(), ov(l0).c_str(), ov(u0).c_str(), ov(p).c_str(), ov(lo).c_str(), ov(up).c_str()); st.hit("constraint_merge"); }
+    // ---- look-up in a user's list of constraints (several items may designate the same parameter: the first one answers)
+    { Constraints cons; std::string items; int nit = (int)rng.range(0, 5);
+      static const int cases[4] = {-1, 0, 1, 2}; static const int elems[4] = {1, 2, 3, 4};
+      for (int i = 0; i < nit; i++)
+      { int icase = cases[rng.range(0, 3)], igrf = (int)rng.range(0, 1), icov = (int)rng.range(0, 1), el = elems[rng.range(0, 3)], iv1 = (int)rng.range(0, 1), iv2 = (int)rng.range(0, 1); double v = 0.5 * (double)rng.range(-6, 12);
+        ConsItem* it = ConsItem::createFromParamId(icov, EConsElem::fromValue(el), EConsType::fromValue(icase), v, igrf, iv1, iv2); if (it == nullptr) continue;
+        cons.addItem(it); delete it;
+        items += (items.empty() ? "" : "/") + std::to_string(icase) + "~" + std::to_string(igrf) + "~" + std::to_string(icov) + "~" + std::to_string(el) + "~" + std::to_string(iv1) + "~" + std::to_string(iv2) + "~" + dy(v); }
+      for (int q = 0; q < 4; q++)
+      { int icase = cases[rng.range(0, 2)], igrf = (int)rng.range(0, 1), icov = (int)rng.range(0, 1), el = elems[rng.range(0, 3)], iv1 = (int)rng.range(0, 1), iv2 = (int)rng.range(0, 1);
+        double v = constraints_get(cons, EConsType::fromValue(icase), igrf, icov, EConsElem::fromValue(el), iv1, iv2);
+        printf("a cget %s %d %d %d %d %d %d => %s\n", items.empty() ? "-" : items.c_str(), icase, igrf, icov, el, iv1, iv2, ov(v).c_str()); st.hit("constraint_lookup"); } }
+    // ---- compression of the undefined parameters
+    { int m = (int)rng.range(0, 7); VectorInt ids(m); VectorDouble ps(m), ls(m), us(m);
+      for (int i = 0; i < m; i++) { ids[i] = (int)rng.range(0, 400000); ps[i] = rng.coin(0.4) ? TEST : 0.5 * (double)rng.range(-6, 6); ls[i] = rng.coin(0.4) ? TEST : 0.5 * (double)rng.range(-6, 6); us[i] = rng.coin(0.4) ? TEST : 0.5 * (double)rng.range(-6, 6); }
+      VectorInt ids2 = ids; VectorDouble ps2 = ps, ls2 = ls, us2 = us;
+      int nk = gstlearn_verif_compress_parid(ids2, ps2, ls2, us2);
+      std::vector<int> a(ids.begin(), ids.end()), b(ids2.begin(), ids2.end());
+      printf("a cmp %s %s %s %s => %d %s %s %s %s\n", vecI(a).c_str(), vecOV(ps).c_str(), vecOV(ls).c_str(), vecOV(us).c_str(), nk, vecI(b).c_str(), vecOV(ps2).c_str(), vecOV(ls2).c_str(), vecOV(us2).c_str()); st.hit("parameter_compression"); }
+  }
+}
+#endif
+
 int main()
 {
   muteLibrary();
@@ -27,6 +73,9 @@ int main()
   long ncfg = envLong("VERIF_CASES", thorough() ? 1500 : 60);
   ASerializable::setContainerName(false, "", false); ASerializable::setPrefixName("");
   char tmpl[] = "/var/tmp/vh_c17_XXXXXX"; std::string dir = mkdtemp(tmpl);
+#ifdef GSTLEARN_VERIF
+  bookkeeping(rng, st, thorough() ? 20000 : 1500);
+#endif
   static const ECov pool[] = {ECov::NUGGET, ECov::SPHERICAL, ECov::EXPONENTIAL, ECov::GAUSSIAN, ECov::CUBIC, ECov::MATERN, ECov::LINEAR};
   for (long ic = 0; ic < ncfg; ic++)
   {
@@ -49,15 +98,24 @@ int main()
       Z[a][i] = v + (a ? 0.5 * Z[0][i] : 0.);
     }
     Db* db = makeDb(X, ndim, Z, {}, {}, {});
-    int ndir = rng.coin(0.6) ? 1 : 2;
+    // 1 direction (omnidirectional), 2 (anisotropy inferred, rotation not: the library needs more directions than dimensions), or 4 (rotation inferred)
+    int ndir = rng.coin(0.5) ? 1 : (rng.coin(0.5) ? 2 : 4);
     VarioParam vp;
-    for (int d = 0; d < ndir; d++) { DirParam* dp = ndir == 1 ? DirParam::create((int)rng.range(4, 10), 1. + 0.5 * rng.range(0, 4)) : DirParam::create((int)rng.range(4, 8), 1.5, 0.5, 45., 0, 0, TEST, TEST, 0., VectorDouble(), d == 0 ? VectorDouble({1., 0.}) : VectorDouble({0., 1.})); vp.addDir(*dp); delete dp; }
+    for (int d = 0; d < ndir; d++)
+    {
+      DirParam* dp;
+      if (ndir == 1) dp = DirParam::create((int)rng.range(4, 10), 1. + 0.5 * rng.range(0, 4));
+      else if (ndir == 2) dp = DirParam::create((int)rng.range(4, 8), 1.5, 0.5, 45., 0, 0, TEST, TEST, 0., VectorDouble(), d == 0 ? VectorDouble({1., 0.}) : VectorDouble({0., 1.}));
+      else { static const double cx[4] = {1., 1., 0., -1.}, cy[4] = {0., 1., 1., 1.}; dp = DirParam::create((int)rng.range(4, 8), 1.5, 0.5, 22.5, 0, 0, TEST, TEST, 0., VectorDouble(), VectorDouble({cx[d], cy[d]})); }
+      vp.addDir(*dp); delete dp;
+    }
     Vario* vario = Vario::computeFromDb(vp, db);
     if (vario == nullptr) { delete db; st.hit("no_variogram"); continue; }
     // ---- structures, constraints, options
     int ns = (int)rng.range(1, 3); VectorECov types; for (int k = 0; k < ns; k++) types.push_back(pool[rng.range(0, 6)]);
     Constraints cons; struct C { char kind; EConsElem elem; int icov, iv1, iv2; double bound; }; std::vector<C> mine;
     bool authAniso = rng.coin(0.6), authRot = rng.coin(0.6);
+    bool lockSame = rng.coin(0.3);
     int ncons = rng.coin(0.5) ? 0 : (int)rng.range(1, 4);
     // a pair of constraints on the two ranges of one structure (each direction has its own parameter)
     if (authAniso && ndir >= 2 && rng.coin(0.7))
@@ -80,7 +138,37 @@ int main()
     }
     for (int k = 0; k < ncons; k++)
     {
-      int icov = (int)rng.range(0, ns - 1); int what = (int)rng.range(0, 2);
+      int icov = (int)rng.range(0, ns - 1); int what = (int)rng.range(0, 4);
+      if (what == 3)
+      {
+        // rotation angle of one structure (inferred only with a directional variogram, anisotropy and rotation allowed):
+        // lower / upper / equality, intervals of negative angles included
+        bool dup = false; for (auto& c : mine) if (c.icov == icov && c.elem == EConsElem::ANGLE) dup = true;
+        if (dup || !(authAniso && authRot && ndir > ndim) || types[icov] == ECov::NUGGET) continue;
+        if (lockSame) { int first = -1; for (int k2 = 0; k2 < ns && first < 0; k2++) if (types[k2] != ECov::NUGGET) first = k2; if (icov != first) continue; }   // one rotation for all structures: carried by the first one
+        int kind = (int)rng.range(0, 2); double b = 15. * rng.range(-5, 5);
+        if (kind == 2) { cons.addItemFromParamId(EConsElem::ANGLE, icov, 0, 0, EConsType::EQUAL, b); mine.push_back({'E', EConsElem::ANGLE, icov, 0, 0, b}); }
+        else if (rng.coin(0.5))
+        { // an interval [b, b + w]
+          double w = 15. * rng.range(1, 3);
+          cons.addItemFromParamId(EConsElem::ANGLE, icov, 0, 0, EConsType::LOWER, b); mine.push_back({'L', EConsElem::ANGLE, icov, 0, 0, b});
+          cons.addItemFromParamId(EConsElem::ANGLE, icov, 0, 0, EConsType::UPPER, b + w); mine.push_back({'U', EConsElem::ANGLE, icov, 0, 0, b + w});
+        }
+        else { cons.addItemFromParamId(EConsElem::ANGLE, icov, 0, 0, kind == 0 ? EConsType::LOWER : EConsType::UPPER, b); mine.push_back({kind == 0 ? 'L' : 'U', EConsElem::ANGLE, icov, 0, 0, b}); }
+        st.hit("angle_constraints");
+        continue;
+      }
+      if (what == 4)
+      {
+        // third parameter of a Matern structure
+        bool dup = false; for (auto& c : mine) if (c.icov == icov && c.elem == EConsElem::PARAM) dup = true;
+        if (dup || types[icov] != ECov::MATERN) continue;
+        int kind = (int)rng.range(0, 2); double b = 0.25 * rng.range(1, 8);
+        cons.addItemFromParamId(EConsElem::PARAM, icov, 0, 0, kind == 0 ? EConsType::LOWER : (kind == 1 ? EConsType::UPPER : EConsType::EQUAL), b);
+        mine.push_back({kind == 0 ? 'L' : (kind == 1 ? 'U' : 'E'), EConsElem::PARAM, icov, 0, 0, b});
+        st.hit("param_constraints");
+        continue;
+      }
       // a range constraint bears on one direction of the anisotropy (iv1): any direction when the anisotropy is inferred
       int idir = (what != 1 && authAniso && ndir >= 2) ? (int)rng.range(0, ndim - 1) : 0;   // the second range is inferred only from a directional variogram
       int iv = (what == 1) ? (int)rng.range(0, nvar - 1) : idir;
@@ -89,7 +177,7 @@ int main()
       else if (what == 1) { double b = 0.25 * rng.range(1, 20); bool up = rng.coin(); cons.addItemFromParamId(EConsElem::SILL, icov, iv, iv, up ? EConsType::UPPER : EConsType::LOWER, b); mine.push_back({up ? 'U' : 'L', EConsElem::SILL, icov, iv, iv, b}); }
       else { double b = 0.5 + 0.5 * rng.range(0, 8); cons.addItemFromParamId(EConsElem::RANGE, icov, idir, 0, EConsType::EQUAL, b); mine.push_back({'E', EConsElem::RANGE, icov, idir, 0, b}); if (idir > 0) st.hit("range_constraint_second_direction"); }
     }
-    Option_VarioFit optvar(false, authAniso, authRot);
+    Option_VarioFit optvar(false, authAniso, authRot, lockSame);
     Model* model = new Model(nvar, ndim);
     int err = model->fit(vario, types, cons, optvar);
     st.hit(err == 0 ? "fit_success" : "fit_refused");
@@ -98,17 +186,24 @@ int main()
     {
       // ---- sills: exact PSD certificate per structure
       std::vector<double> rangesOut; std::string consOut; bool first = true;
+      // a Matern structure whose third parameter has run away (known finding F79) spoils the sills of every structure of the model
+      bool anyBigMatern = false; for (int k = 0; k < model->getCovaNumber(); k++) if (model->getCova(k)->getType() == ECov::MATERN && model->getCova(k)->getParam() > 50.) anyBigMatern = true;
       for (int ic2 = 0; ic2 < model->getCovaNumber(); ic2++)
       {
         const CovAniso* cova = model->getCova(ic2);
         std::string vals; double scale = 0.;
         for (int a = 0; a < nvar; a++) for (int b = 0; b < nvar; b++) { double sv = model->getSill(ic2, a, b); vals += ((a || b) ? "," : "") + dy(sv); scale = std::max(scale, std::fabs(sv)); }
-        printf("s psd fitted_sills:%s %d %s %s =>\n", std::string(cova->getType().getKey()).c_str(), nvar, vals.c_str(), dy(std::ldexp(std::max(scale, 1e-300), -36)).c_str()); st.hit("sill_matrices");
+        printf("s psd fitted_sills:%s%s %d %s %s =>\n", std::string(cova->getType().getKey()).c_str(), anyBigMatern ? ":bigmatern" : "", nvar, vals.c_str(), dy(std::ldexp(std::max(scale, 1e-300), -36)).c_str()); st.hit("sill_matrices");
         if (cova->hasRange() > 0)
         {
           for (int d = 0; d < ndim; d++) rangesOut.push_back(cova->getRange(d));
           if (!authAniso) { consOut += (first ? "" : ";") + std::string("S,") + dy(cova->getRange(0)) + "," + dy(cova->getRange(1)); first = false; st.hit("isotropy_required"); }
           if (!authRot && cova->getFlagRotation()) { consOut += (first ? "" : ";") + std::string("E,") + dy(cova->getAnisoAngles(0)) + "," + dy(0.); first = false; }
+          if (lockSame && authAniso && authRot && ndir > ndim)
+          { // one rotation shared by all the structures: compare with the first structure having a range
+            for (int k0 = 0; k0 < ic2; k0++) if (model->getCova(k0)->hasRange() > 0)
+            { consOut += (first ? "" : ";") + std::string("E,") + dy(cova->getAnisoAngles(0)) + "," + dy(model->getCova(k0)->getAnisoAngles(0)); first = false; st.hit("same_rotation_required"); break; }
+          }
         }
       }
       // ---- user constraints on the returned model (structures may have been reduced: identify by order only when the count is kept)
@@ -118,6 +213,8 @@ int main()
           const CovAniso* cova = model->getCova(c.icov);
           double v = TEST;
           if (c.elem == EConsElem::RANGE) { if (cova->hasRange() <= 0) continue; v = cova->getRange(c.iv1); }   // iv1 = direction of the anisotropy
+          else if (c.elem == EConsElem::ANGLE) { if (cova->hasRange() <= 0) continue; v = cova->getAnisoAngles(0); st.hit("angle_constraints_checked"); }
+          else if (c.elem == EConsElem::PARAM) { if (cova->getType() != ECov::MATERN) continue; v = cova->getParam(); st.hit("param_constraints_checked"); }
           else v = model->getSill(c.icov, c.iv1, c.iv2);
           consOut += (first ? "" : ";") + std::string(1, c.kind) + "," + dy(v) + "," + dy(c.bound); first = false; st.hit("user_constraints");
         }
@@ -144,7 +241,7 @@ int main()
       double mean = 0., var = 0.; for (double v : Z[0]) mean += v; mean /= nech; for (double v : Z[0]) var += (v - mean) * (v - mean); var /= nech;
       bool zerosill = tot <= 1e-9 * std::max(var, 1e-300) || tot < 1e-12;
       bool bigmatern = false; for (int k = 0; k < model->getCovaNumber(); k++) if (model->getCova(k)->getType() == ECov::MATERN && model->getCova(k)->getParam() > 50.) bigmatern = true;
-      if (getenv("VERIF_DEBUG")) { fprintf(stderr, "cfg aniso=%d rot=%d nvar=%d ns=%d ndirs=%d cons:", (int)authAniso, (int)authRot, nvar, ns, vario->getDirectionNumber()); for (auto& c : mine) fprintf(stderr, " [%c %s cov%d iv1=%d b=%g]", c.kind, c.elem == EConsElem::SILL ? "sill" : "range", c.icov, c.iv1, c.bound); fprintf(stderr, "\n%s\n", model->toString().c_str()); }
+      if (getenv("VERIF_DEBUG")) { fprintf(stderr, "cfg aniso=%d rot=%d nvar=%d ns=%d ndirs=%d cons:", (int)authAniso, (int)authRot, nvar, ns, vario->getDirectionNumber()); for (auto& c : mine) fprintf(stderr, " [%c %s cov%d iv1=%d b=%g]", c.kind, c.elem == EConsElem::SILL ? "sill" : (c.elem == EConsElem::ANGLE ? "angle" : (c.elem == EConsElem::PARAM ? "param" : "range")), c.icov, c.iv1, c.bound); fprintf(stderr, "\n%s\n", model->toString().c_str()); }
       printf("s fit shape%d%s%s %s %s %s =>\n", shape, zerosill ? ":zerosill" : "", bigmatern ? ":bigmatern" : "", vecD(rangesOut).c_str(), consOut.empty() ? "-" : consOut.c_str(), usable.c_str()); st.hit("fitted_models");
       delete back;
     }
